@@ -12,4 +12,16 @@ CLAIMS = {
   note='Trusted: Coq kernel; the world model of policy directories (plain/bz2/removed) and of damage (= json.Unmarshal rejects the file); '
        'the harness (vlib/c13.py, harness/cmd/nah/status.go). The mapping from do-approve outcomes to SetApprove/SetCompare flags is C09.',
   technique='Coq refinement invariant over histories + differential replay of histories on status.go/missing-approve'),
+ 'C05': dict(
+  text='Convergence of the route half is a Coq theorem over all duplicate-free route lists (C05_routes_converge: executing the emitted '
+       'add/del/replace commands on a kernel table holding the device routes never fails and yields exactly the target routes; '
+       'C05_routes_unchanged_iff: nothing is emitted iff the sets are equal). The iptables half (option parsing, normalisation of kernel '
+       'spellings, first-difference report, raw merge, restore file) is an executable Gallina model; the whole stdout of drc must equal the '
+       'model output on generated device/target pairs in both spellings, and the generator independently knows whether the device is a '
+       're-spelling or a semantic edit of the target.',
+  design_ref='DESIGN.md section 4, C05',
+  note='Trusted: Coq kernel; the kernel routing-table semantics (add fails iff the same destination+hop is present); the list of kernel '
+       're-spellings (no iptables binary in the sandbox); the harness vlib/c05.py. Partial: the normaliser is tied by correspondence, the '
+       'soundness theorem covers the structural diff; real kernel behaviour cannot be exhibited.',
+  technique='Coq proof of route-script convergence on a kernel-table semantics + exact differential of drc output against the Gallina model'),
 }
